@@ -240,7 +240,7 @@ QUIET = {}
 # what an application around the search may look like: logging configured at DEBUG with a handler, warnings shown, another number of OpenMP
 # threads, progress bars disabled by the environment, another working directory, asserts stripped (python -O), verbose=1
 # (sys.flags: -b in the quick tier; -O as well in the thorough tier - without byte-code cache it recompiles every module, +5 s per process)
-LOUD = dict(log="DEBUG", warnings="always", omp="2", tqdm_disable="1", cwd=True, pyflags=["-b"], verbose=1)
+LOUD = dict(log="DEBUG", warnings="always", omp="2", tqdm_disable="1", cwd=True, pyflags=["-b"], verbose=1, affinity=2)   # affinity: 2 CPUs instead of all
 
 
 def start_child(specs, hashseed, ambient=None):
@@ -253,7 +253,7 @@ def start_child(specs, hashseed, ambient=None):
     cwd = None
     if ambient.get("cwd"):
         cwd = tempfile.mkdtemp(prefix="vp_c07_cwd_")
-    specs = [dict(s, ambient=ambient) for s in specs]
+    specs = [dict(s, ambient=dict(ambient, affinity_shift=s.get("perturb", 0)) if ambient.get("affinity") else ambient) for s in specs]
     p = subprocess.Popen(["/venv/bin/python"] + list(ambient.get("pyflags", [])) + [os.path.join(HERE, "c07_child.py"), json.dumps(specs)], env=env, cwd=cwd,
                          stdout=subprocess.PIPE, stderr=subprocess.PIPE, text=True)
     p._vp_cwd = cwd
@@ -278,6 +278,13 @@ def finish_child(p, n, timeout=240):
     return [{"error": "ChildCrashed", "trace": (err or out)[-1500:]}] * n
 
 
+def child_timeout(case):
+    """Seconds a child may take: the long-history GP cases and the n_jobs=-1 cases are slow on a loaded machine (a timeout is reported as a
+    failure, so it must be far in the tail)."""
+    heavy = int(case.get("warm", 0)) > 100 or case.get("kwargs", {}).get("n_jobs", 1) not in (1,)
+    return 1200 if heavy else 400
+
+
 def tok(entry):
     """Injective integer token of one (name, repr(value), type name) triple."""
     return int.from_bytes(b"\x01" + ("%s=%s:%s" % tuple(entry)).encode(), "big")
@@ -299,7 +306,7 @@ def check_pair(case):
     ca = start_child([spec_of(case, case["seed"], pa)], ha)
     loud = LOUD if case.get("ambient", True) else QUIET
     cb = start_child([spec_of(case, case["seed"], pb), spec_of(case, case["seed2"], pb)], hb, loud)
-    (A,), (B, C) = finish_child(ca, 1), finish_child(cb, 2)
+    (A,), (B, C) = finish_child(ca, 1, child_timeout(case)), finish_child(cb, 2, child_timeout(case))
     errs = [r.get("error") for r in (A, B, C)]
     if any(e in ("ChildTimeout", "ChildCrashed") for e in errs):
         return dict(res, ok=False, clause="child_" + [e for e in errs if e in ("ChildTimeout", "ChildCrashed")][0], sig=sig_of(case, "child_failed", exc=str(errs)), nontrivial=True,
@@ -359,7 +366,8 @@ def diagnose(case, A, key, pa, pb, ha, hb, loud):
     c2 = start_child([spec_of(case, case["seed"], pb)], ha)          # only the global-generator perturbation differs from A
     c3 = start_child([spec_of(case, case["seed"], pa)], ha)          # identical twin
     c4 = start_child([spec_of(case, case["seed"], pa)], ha, loud)    # only the ambient state (logging, warnings, environment, cwd, -O, verbose) differs
-    (H,), (G,), (T,), (M,) = finish_child(c1, 1), finish_child(c2, 1), finish_child(c3, 1), finish_child(c4, 1)
+    tmo = child_timeout(case)
+    (H,), (G,), (T,), (M,) = finish_child(c1, 1, tmo), finish_child(c2, 1, tmo), finish_child(c3, 1, tmo), finish_child(c4, 1, tmo)
     same = lambda r: r.get("error") not in ("ChildTimeout", "ChildCrashed") and trace_of(r, key) == trace_of(A, key)
     factors = [n for n, r in (("hashseed", H), ("global_rng", G), ("ambient", M)) if not same(r)]
     cause = "process" if not same(T) else "+".join(factors) if factors else "interaction"
@@ -367,7 +375,7 @@ def diagnose(case, A, key, pa, pb, ha, hb, loud):
     if "ambient" in factors:
         # which part of the ambient state?
         kids = {k2: start_child([spec_of(case, case["seed"], pa)], ha, {k2: loud[k2]}) for k2 in LOUD if k2 in loud}
-        extra["ambient_parts_same"] = {k2: same(finish_child(p2, 1)[0]) for k2, p2 in kids.items()}
+        extra["ambient_parts_same"] = {k2: same(finish_child(p2, 1, tmo)[0]) for k2, p2 in kids.items()}
     return cause, extra
 
 
@@ -488,8 +496,12 @@ def shared_catalogue(rng, full=False):
         base_case(rng, space="flat_many", evals=14, threads=True, repeat=2, kwargs=K(surrogate_model="DUMMY", acq_func="UCB", n_jobs=4)),
         base_case(rng, space="flat_many", evals=10, threads=True, repeat=2, kwargs=K(surrogate_model="ET", acq_func="UCBd", n_jobs=4)),
         base_case(rng, space="flat_many", evals=10, threads=True, repeat=2, kwargs=K(surrogate_model="DUMMY", acq_func="UCB", n_jobs=1)),
+        # "all the CPUs the process may use": process B is allowed 2 CPUs, process A all of them; L-BFGS at every fit
+        base_case(rng, space="flat_real", evals=12, threads=True, kwargs=K(surrogate_model="GP", acq_func="EI", n_jobs=-1, acq_optimizer_freq=1)),
+        # a long history continued with a GP (second entry point fit_surrogate, > 500 observations)
+        base_case(rng, space="flat_real", evals=2, kwargs=K(surrogate_model="GP", acq_func="EI", n_initial_points=2, n_points=32), warm=510, warm_how="fit_surrogate"),
     ]
-    return cat if full else [cat[i] for i in (0, 2, 4, 5, 6)]
+    return cat if full else [cat[i] for i in (0, 2, 4, 5, 6, 8)]
 
 
 def random_case(rng, surrogates=("DUMMY", "ET", "RF"), search=None):
@@ -546,6 +558,10 @@ def probes(rng):
         (["self._problem=", "self.space=", "self.config_space=", "config_space"], base_case(rng, search="CBO", space="cond", mode="ask", batches=[2, 2, 2, 2, 2], kwargs=K(acq_func="UCB", multi_point_strategy="cl_max"), interfere="CBO")),
         (["delayed(", "parallel", "_sample_dimension", "n_jobs"], base_case(rng, space="flat_many", evals=14, threads=True, repeat=2, kwargs=K(surrogate_model="DUMMY", acq_func="UCB", n_jobs=4))),
         (["delayed(", "parallel", "fmin_l_bfgs_b", "n_jobs"], base_case(rng, space="flat_real", evals=10, threads=True, repeat=2, kwargs=K(surrogate_model="GP", acq_func="EI", n_jobs=4))),
+        (["effective_n_jobs", "cpu_count", "sched_getaffinity", "host", "lbfgs", "fmin_l_bfgs_b", "n_restarts"],
+         base_case(rng, space="flat_real", evals=12, threads=True, kwargs=K(surrogate_model="GP", acq_func="EI", n_jobs=-1, acq_optimizer_freq=1))),
+        (["optimizer._sample", "np.random.choice", "sample_max_size", "quantile"],
+         base_case(rng, space="flat_real", evals=2, kwargs=K(surrogate_model="GP", acq_func="EI", n_initial_points=2, n_points=32), warm=510, warm_how="fit_surrogate")),
         (["_kde", "resample", "update_prior", "real.rvs"], base_case(rng, space="flat_real", evals=12, kwargs=K(acq_func="UCB", update_prior=True))),
         (["update_next", "fail", "ignore", "cbo._tell", "opt_y"], base_case(rng, space="flat_real", fail_region=0.4, evals=14, kwargs=K(acq_func="UCBd", filter_failures="ignore"))),
         (["update_next", "fail", "ignore", "config_space"], base_case(rng, space="cond", fail_region=0.4, evals=14, kwargs=K(acq_func="UCBd", filter_failures="ignore"))),
@@ -790,6 +806,6 @@ def gen_trace(rng, tier):
 def streams(tier):
     LOUD["pyflags"] = ["-b", "-O"] if tier == "thorough" else ["-b"]
     return [
-        Stream("process_pairs", gen_pairs, check_pair, shrink=shrink_pair, parallel=True, timeout=600, search_gen=search_around),
+        Stream("process_pairs", gen_pairs, check_pair, shrink=shrink_pair, parallel=True, timeout=3000, search_gen=search_around),
         Stream("site_trace", gen_trace, check_trace, shrink=shrink_pair, parallel=True, timeout=300),
     ]
